@@ -1,13 +1,15 @@
 (* C01 - Incremental appends give exactly the batch result (schedule independence).
    Proved for the faithful engine of Model/Engine.v (resume index, skip-if-present, in-place
-   set_reading) on the base timeframe, for every leaf indicator whose _calculate_reading is
-   pure and causal, and those two obligations are discharged for HLA, TR, OBV and EMA (any
-   period >= 1, any input whose lookup does not read the indicator's own slot).  For the
-   other indicators, composite ones and collapsing timeframes the property is decided by
-   the bit-exact correspondence and the falsifier (C03_recollapse covers the manager half). *)
+   set_reading) for every leaf indicator whose _calculate_reading is pure and causal - on
+   the base timeframe for any chunking, and on a collapsing timeframe (re-collapse of the
+   calculated buckets followed by the new raw candles, then calculate) - and those two
+   obligations are discharged for HLA, TR, OBV, EMA, SMA, RMA, WMA, ROC, Counter and every
+   Amorph-wrapped analysis function (any period >= 1, any input whose lookup does not read
+   the indicator's own slot).  For the other indicators and composite ones the property is
+   decided by the bit-exact correspondence and the falsifier. *)
 From Coq Require Import ZArith List String Bool.
 From Hexital Require Import Base.Prelude Base.Num Model.Manager Model.Candle Model.Readings Model.Engine
-  Proofs.EngineProofs Proofs.CausalProofs Proofs.AnalysisProofs Model.Analysis.
+  Proofs.EngineProofs Proofs.CausalProofs Proofs.AnalysisProofs Proofs.ComposeProofs Proofs.CausalMore Model.Analysis.
 Import ListNotations.
 Local Open Scope Z_scope.
 
@@ -84,3 +86,50 @@ Proof.
   intros O I f K Hw Hs. split; [intros; eapply amorph_pure; exact K|eapply amorph_causal; eassumption].
 Qed.
 Print Assumptions C01_obligations_AMORPH.
+
+(* collapsing timeframes: an indicator whose candles are the collapse of a raw stream.  After
+   the stream so far (xs) its store is D; appending ys re-collapses D ++ ys (the calculated
+   buckets followed by the raw new candles, exactly what CandleManager.append/resample do)
+   and calculates.  The result is the batch result on the resampled whole stream: the open
+   last bucket is reset by the merge, hence recomputed; closed buckets keep their readings *)
+Theorem C01_append_on_timeframe :
+  forall (O : NumOps) (I : ind O) (calc : store O -> Z -> res (val O)),
+  i_subs O I = [] /\ i_managed O I = [] ->
+  (forall rec st i, calc_reading O rec I st i = (v <- calc st i ;; Ok (v, st))) ->
+  Causal O I calc ->
+  forall (tf : Z) (xs ys : list (cd (payload O))) (D : store O),
+  0 < tf -> sorted (payload O) (xs ++ ys) -> Forall (fresh O I) (xs ++ ys) ->
+  canon O I calc (resample (payload O) (Candle.merge O) tf xs) = Ok D ->
+  exists M, collapse (payload O) (Candle.merge O) tf (D ++ ys) = Ok M /\
+            calculate O I M = canon O I calc (resample (payload O) (Candle.merge O) tf (xs ++ ys)).
+Proof. intros O I calc Hl Hp Hc tf xs ys D Htf Hs Hf HD. eapply append_on_timeframe; eassumption. Qed.
+Print Assumptions C01_append_on_timeframe.
+
+(* further indicators whose obligations are discharged: Counter and RMA directly, ROC and WMA
+   with the warm-up invariant (a previous reading exists only from the warm-up index on, so
+   input[index - period] never wraps around to the newest candles) *)
+Theorem C01_obligations_COUNTER : forall (O : NumOps) (I : ind O) input cv,
+  i_kind O I = K_COUNTER input cv -> stable O I input ->
+  (forall rec st i, calc_reading O rec I st i = (v <- pure_calc O I st i ;; Ok (v, st))) /\ Causal O I (pure_calc O I).
+Proof. intros O I input cv K Hs. split; [intros; eapply counter_pure; exact K|eapply counter_causal; eassumption]. Qed.
+Print Assumptions C01_obligations_COUNTER.
+
+Theorem C01_obligations_RMA : forall (O : NumOps) (I : ind O) period input,
+  i_kind O I = K_RMA period input -> 1 <= period -> stable O I input ->
+  (forall rec st i, calc_reading O rec I st i = (v <- pure_calc O I st i ;; Ok (v, st))) /\ Causal O I (pure_calc O I).
+Proof. intros O I period input K Hp Hs. split; [intros; eapply rma_pure; exact K|eapply rma_causal; eassumption]. Qed.
+Print Assumptions C01_obligations_RMA.
+
+Theorem C01_obligations_ROC : forall (O : NumOps) (I : ind O) period input,
+  i_kind O I = K_ROC period input -> 1 <= period -> stable O I input -> i_sub O I = false ->
+  (has_dot (i_name O I) = false /\ forall q, candle_attr O q (i_name O I) = None) ->
+  (forall rec st i, calc_reading O rec I st i = (v <- pure_calc O I st i ;; Ok (v, st))) /\ Causal O I (pure_calc O I).
+Proof. intros O I period input K Hp Hs Ht Hn. split; [intros; eapply roc_pure; exact K|eapply roc_causal; eassumption]. Qed.
+Print Assumptions C01_obligations_ROC.
+
+Theorem C01_obligations_WMA : forall (O : NumOps) (I : ind O) period input,
+  i_kind O I = K_WMA period input -> 1 <= period -> stable O I input -> i_sub O I = false ->
+  (has_dot (i_name O I) = false /\ forall q, candle_attr O q (i_name O I) = None) ->
+  (forall rec st i, calc_reading O rec I st i = (v <- pure_calc O I st i ;; Ok (v, st))) /\ Causal O I (pure_calc O I).
+Proof. intros O I period input K Hp Hs Ht Hn. split; [intros; eapply wma_pure; exact K|eapply wma_causal; eassumption]. Qed.
+Print Assumptions C01_obligations_WMA.
